@@ -117,7 +117,11 @@ SkipOk(s, from, to, me) ==
 OwedOk(s, from, to) == from < to /\ to <= cur[s] /\ \A b \in from..(to - 1) : b \in owed[s]
 
 \* (a flush that hands over bytes beyond the cursor while a receive on the session is still in flight: see SkipOk)
+\* nothing is delivered for a session after its close: once the close has begun, only a hand-over by a setReadMode(Async) call
+\* that was made before the close had finished (and may have taken the buffered bytes before the close emptied the session's
+\* mode entry) can still be running, on that caller's thread
 EvData == /\ IsEv("Data") /\ ~Ev.as
+          /\ stage[Ev.s] = "none" \/ \E f \in pendFlush : f[2] = Ev.s /\ f[1] = Ev.th
           /\ \/ ~MultiRun /\ HandOk(Ev.s, Ev.from, Ev.to) /\ UNCHANGED owed
              \/ MultiRun /\ HandOkRuns(Ev.s) /\ UNCHANGED owed
              \/ /\ ~MultiRun /\ SkipOk(Ev.s, Ev.from, Ev.to, <<>>)
@@ -172,7 +176,8 @@ EvRecvRet ==
     /\ UNCHANGED <<arrived, arrDone, disab, closedAt, maxBacklog, pendFlush>> /\ C04U /\ C02U /\ KeepL
 
 EvModeCall == /\ IsEv("ModeCall")
-              /\ pendFlush' = IF Ev.m = "async" THEN pendFlush \cup {<<Ev.t, Ev.s>>} ELSE pendFlush
+              \* (a switch called after the session's close has completed hands over nothing: not a flush in flight)
+              /\ pendFlush' = IF Ev.m = "async" /\ stage[Ev.s] # "done" THEN pendFlush \cup {<<Ev.t, Ev.s>>} ELSE pendFlush
               /\ overl' = IF Ev.m = "async" THEN overl \cup {<<r[1], r[2]>> : r \in {x \in pendRecv : x[2] = Ev.s}} ELSE overl
               /\ UNCHANGED <<arrived, arrDone, disab, cur, closedAt, ovfSeen, maxBacklog, pendRecv>> /\ C04U /\ C02U /\ KeepL /\ UNCHANGED owed
 EvModeRet == /\ IsEv("ModeRet")
